@@ -334,7 +334,8 @@ def exec_run(pool, case, extra=None):
     market.update, market.set_market_status = upd, setst
     run_err = None
     try:
-        act.run(print_result=False)
+        with U.quiet():
+            act.run(print_result=False)
     except Exception as e:  # noqa: BLE001
         run_err = type(e).__name__
     return recs, run_err, oplog
